@@ -55,7 +55,7 @@ def run_corpus(ctx):
         ctx.count("corpus_cases")
 
 
-def mixed_tree(rng, tier, kinds=("friendly", "rule", "poly", "rational", "special", "plain"), weights=(40, 20, 8, 8, 12, 12)):
+def mixed_tree(rng, tier, kinds=("friendly", "rule", "poly", "rational", "special", "plain", "shared"), weights=(34, 18, 8, 8, 12, 10, 10)):
     """The general-purpose evaluation workload: returns (spec, family, point_values)."""
     fam = rng.choices(kinds, weights[:len(kinds)])[0]
     hi = 40 if tier == "quick" else 80
@@ -73,6 +73,19 @@ def mixed_tree(rng, tier, kinds=("friendly", "rule", "poly", "rational", "specia
         vals = G.DYADIC_VALUES
     elif fam == "special":
         t = special_tree(rng)
+    elif fam == "shared":
+        # the same sub-expression OBJECT in several places (built as a DAG by the caller): a parameterised node is
+        # copied over other positions so that per-object state (memo, flags) is hit twice within one traversal
+        inner = G.friendly_tree(rng, G.rand_size(rng, 3, 14), wide)
+        shared_part = rng.choice([("Logarithm", G.positive_of(rng, G.hole(rng)), rng.choice([2, 10, 0.5, 3])),
+                                  ("Exponential", G.hole(rng), rng.choice([2, 0.5, 10, None])),
+                                  ("NthRoot", G.positive_of(rng, G.hole(rng)), rng.choice([2, 3, 4, 5])),
+                                  ("NthPower", G.hole(rng), rng.choice([2, 3, 4])), ("Sine", G.hole(rng)), ("Reciprocal", G.positive_of(rng, G.hole(rng))),
+                                  ("Power", G.positive_of(rng, G.hole(rng)), G.hole(rng)), ("Divide", G.hole(rng), G.positive_of(rng, G.hole(rng)))])
+        t = rng.choice([("Add", ("Multiply", shared_part, shared_part), ("Exponential", shared_part, 2), inner),
+                        ("Multiply", shared_part, ("Add", shared_part, inner)), ("Minus", ("NthPower", shared_part, 2), shared_part),
+                        ("Divide", inner, ("Add", ("NthPower", shared_part, 2), ("Constant", 1), ("Cosine", shared_part)))])
+        t = G.with_sharing(rng, t, 1)
     else:
         t = G.rand_tree(rng, G.rand_size(rng, 1, hi), wide)
     return t, fam, vals
